@@ -68,7 +68,7 @@ void run_plain(const P& p, int gi, long idx, int mode, const std::string& input)
     {
         switch (mode)
         {
-        case 0: case 1: case 7: case 8: case 9:
+        case 0: case 1: case 7: case 8: case 9: case 12: case 13:
         if VF_ON(0)
         {
             string_buffer b{ std::string(input) };
@@ -78,6 +78,9 @@ void run_plain(const P& p, int gi, long idx, int mode, const std::string& input)
             if (mode == 1) o.set_verbose();
             if (mode == 7 || mode == 9) o.set_skip_whitespace(false);
             if (mode == 8 || mode == 9) o.set_skip_newline(false);
+            // setters chained on a named options object, the verbose switch not last: same options as modes 8 / 9 plus verbose
+            if (mode == 12) o.set_verbose().set_skip_newline(false);
+            if (mode == 13) o.set_skip_whitespace(false).set_verbose().set_skip_newline(false);
             {
                 auto r = p.parse(o, b, ss);
                 c.res = r.has_value(); c.root = root_id(r);
